@@ -4,7 +4,7 @@ from fractions import Fraction as Fr
 
 from engine import loader
 from engine.runner import Acc
-from engine.util import call, chunks
+from engine.util import call, chunks, ts_dec, ts_pair
 from spec import cpr as C
 from spec import cprsets as S
 from spec import frames as F
@@ -28,6 +28,7 @@ RECV_T = RECV + [(10, 0), (-10, 0), (0, 10), (0, -10), (44, 0), (-44, 0), (0, 44
 
 def judge(p):
     fn, m0, m1, t0, t1, latr, lonr, exp = p
+    t0, t1 = ts_dec(t0), ts_dec(t1)
     if fn == "noref":
         r = call(pms.adsb.position, m0, m1, t0, t1)
         return None if r == ("exc", "RuntimeError") else "surface:position_without_receiver_not_refused"
@@ -69,6 +70,7 @@ def w_lats(arg):
     lats, recvs, seed = arg
     acc = Acc()
     k = seed
+    kt = seed
     for lat in lats:
         for lon in S.lon_alphabet(lat, True, False):
             for disp in DISP:
@@ -104,7 +106,8 @@ def w_lats(arg):
                     lonr = S.wrap180(lonr)
                     for newer_even in ((True, False, None) if disp == (0, 0) else (True, False)):
                         e = e0 if newer_even else e1
-                        t0, t1 = (5, 4) if newer_even else (4, 5)
+                        kt += 1
+                        t0, t1 = ts_pair(kt, bool(newer_even))   # representation rotates: ints, 0, floats, datetimes ...
                         exp = [float(e["rlat"]), float(e["rlon"]), float(e["dlat"]) / 131072, float(e["dlon"]) / 131072,
                                cls_of(e["rlat"], S.wrap180(e["rlon"]), latr, lonr)]
                         if newer_even is None:
